@@ -68,23 +68,26 @@ Qed.
 Theorem khatri_rao_e_spec (Ms : list (tensor F)) (w mask : option (tensor F)) (skip : option nat) (R : nat) :
   let Ms' := skipl skip Ms in
   Ms' <> [] -> mats R Ms' -> 0 < R -> (forall w0, w = Some w0 -> shape w0 = [R]) ->
+  (forall m0, mask = Some m0 -> shape m0 = map nrows Ms') ->
   exists K, khatri_rao_e Op Ms w mask skip = Ok K /\ wf K /\ shape K = [prod (map nrows Ms'); R] /\
     forall is_ r, inb (map nrows Ms') is_ -> r < R ->
       get d K [ravel (map nrows Ms') is_; r]
       = kr_entry Op Ms' is_ r *r wv Op w r *r maskv Op mask (ravel (map nrows Ms') is_).
 Proof.
-  cbv zeta. intros Hne Hm HR Hw.
+  cbv zeta. intros Hne Hm HR Hw Hmk.
+  assert (Hwok : w_ok w R) by (intros w0 E; rewrite (Hw w0 E); cbn [prod fold_right]; lia).
+  assert (Hmok : mask_ok mask (prod (map nrows (skipl skip Ms)))) by (intros m0 E; now rewrite (Hmk m0 E)).
   destruct (skipl skip Ms) as [|M0 [|M1 rest]] eqn:EMs; [congruence| |].
   - (* a single matrix: the code path shared with the core backend *)
     pose proof (khatri_rao_spec Op Rth Ms w mask skip R) as Hc. cbv zeta in Hc. rewrite EMs in Hc.
-    destruct (Hc Hne Hm) as [K [HK HP]]. exists K. split; [|exact HP].
+    destruct (Hc Hne Hm Hwok Hmok) as [K [HK HP]]. exists K. split; [|exact HP].
     unfold khatri_rao_e. unfold khatri_rao in HK. rewrite EMs in HK |- *. exact HK.
   - set (L := M0 :: M1 :: rest) in *. clear Hne.
     set (n := length L). set (rows := map nrows L).
     set (wi := match w with Some _ => [[0]] | None => [] end).
     set (wo := match w with Some w0 => [w0] | None => [] end).
     set (mi := match mask with Some _ => [seq 1 n] | None => [] end).
-    set (mo := match mask with Some m => [reshape rows m] | None => [] end).
+    set (mo := match mask with Some m => [m] | None => [] end).
     set (ins := kr_ins 1 n ++ wi ++ mi). set (ops := L ++ wo ++ mo). set (out := seq 1 n ++ [0]).
     assert (HM0 : ncols M0 = R).
     { inversion Hm as [|? ? [_ Hs0] _]; subst. unfold ncols. now rewrite Hs0. }
@@ -124,7 +127,14 @@ Proof.
       - apply Nat.mod_mul. lia. }
     split; [|split; [|split; [reflexivity|]]].
     + unfold khatri_rao_e. rewrite EMs. unfold L at 1. cbv iota.
-      rewrite (kr_valid_mats R M0 (M1 :: rest) Hm). rewrite HM0. fold L. fold n. fold rows.
+      rewrite (kr_valid_mats R M0 (M1 :: rest) Hm). rewrite HM0. fold L.
+      assert (Hew : einsum_weights Op R w = Ok w).
+      { unfold einsum_weights. destruct w as [w0|]; [|reflexivity]. unfold ndim. rewrite (Hw w0 eq_refl).
+        cbn [length Nat.eqb prod fold_right]. now rewrite Nat.mul_1_r, Nat.eqb_refl. }
+      rewrite Hew. cbn [rbind].
+      assert (Hem : match mask with Some m => nat_list_eq (shape m) (map nrows L) | None => true end = true).
+      { destruct mask as [m0|]; [|reflexivity]. rewrite (Hmk m0 eq_refl). apply nat_list_eq_refl. }
+      rewrite Hem. fold n. fold rows.
       change (map (fun i => [i; 0]) (seq 1 n)) with (kr_ins 1 n). fold wi wo mi mo. fold ins ops out. fold E. exact Hresh.
     + apply wf_reshape; [exact WE|]. rewrite HpE. cbn [prod fold_right]. lia.
     + intros is_ r Hin Hr. fold L in Hin. fold rows in Hin |- *.
@@ -165,18 +175,21 @@ Proof.
         unfold get. rewrite (Hw w0 eq_refl), ravel1. ring. }
       assert (Pm : rprod Op (map (fun p => get d (snd p) (map e (fst p))) (combine mi mo)) = maskv Op mask (ravel rows is_)).
       { unfold mi, mo, maskv. destruct mask as [m|]; [|reflexivity]. cbn [combine map rprod fold_right fst snd]. rewrite Ei.
-        rewrite get_reshape_flat. ring. }
+        unfold get. rewrite (Hmk m eq_refl). fold rows. ring. }
       rewrite Pw, Pm. ring.
 Qed.
 
 Corollary khatri_rao_backends_agree (Ms : list (tensor F)) (w mask : option (tensor F)) (skip : option nat) (R : nat) :
   let Ms' := skipl skip Ms in
   Ms' <> [] -> mats R Ms' -> 0 < R -> (forall w0, w = Some w0 -> shape w0 = [R]) ->
+  (forall m0, mask = Some m0 -> shape m0 = map nrows Ms') ->
   khatri_rao Op Ms w mask skip = khatri_rao_e Op Ms w mask skip.
 Proof.
-  intros Ms' Hne Hm HR Hw.
-  destruct (khatri_rao_spec Op Rth Ms w mask skip R Hne Hm) as [K1 [E1 [W1 [S1 G1]]]].
-  destruct (khatri_rao_e_spec Ms w mask skip R Hne Hm HR Hw) as [K2 [E2 [W2 [S2 G2]]]].
+  intros Ms' Hne Hm HR Hw Hmk.
+  assert (Hwok : w_ok w R) by (intros w0 E; rewrite (Hw w0 E); cbn [prod fold_right]; lia).
+  assert (Hmok : mask_ok mask (prod (map nrows Ms'))) by (intros m0 E; now rewrite (Hmk m0 E)).
+  destruct (khatri_rao_spec Op Rth Ms w mask skip R Hne Hm Hwok Hmok) as [K1 [E1 [W1 [S1 G1]]]].
+  destruct (khatri_rao_e_spec Ms w mask skip R Hne Hm HR Hw Hmk) as [K2 [E2 [W2 [S2 G2]]]].
   fold Ms' in S1, G1, S2, G2.
   rewrite E1, E2. f_equal. apply tensor_ext with (d := d); auto; [congruence|].
   intros idx Hi. rewrite S1 in Hi. destruct idx as [|row [|r [|? ?]]]; cbn [inb] in Hi; try tauto.
